@@ -4,10 +4,10 @@ import (
 	"fmt"
 	"net"
 	"net/http"
+	"os"
 	"strconv"
 	"strings"
 	"sync"
-	"sync/atomic"
 	"time"
 )
 
@@ -38,11 +38,41 @@ func faultTag(m string) string {
 
 // Ports are handed out explicitly from below the kernel's ephemeral range so
 // that a port stays reserved for its history while the listener is closed
-// ("connection refused"): nothing in this process and no outgoing connection of
-// a child can be given the same port by the kernel.
-var nextPort atomic.Int32
+// ("connection refused"): no outgoing connection of a child can be given the
+// same port by the kernel. Within the process a port belongs to one history at
+// a time (free list); across processes (several checks running at once) each
+// process owns one block of ports, claimed by listening on an abstract-namespace
+// unix socket: that leaves nothing on disk and is released when the process ends.
+const (
+	portBase   = 14000
+	blockSize  = 100
+	portBlocks = 180 // 14000 .. 31999
+)
 
-func init() { nextPort.Store(14000) }
+var (
+	portOnce  sync.Once
+	portFree  chan int
+	portClaim net.Listener // held for the life of the process
+	portErr   error
+)
+
+func claimPorts() {
+	start := os.Getpid() % portBlocks
+	for i := 0; i < portBlocks; i++ {
+		k := (start + i) % portBlocks
+		ln, err := net.Listen("unix", fmt.Sprintf("@verif-p20-ports-%d", k))
+		if err != nil {
+			continue
+		}
+		portClaim = ln
+		portFree = make(chan int, blockSize)
+		for p := 0; p < blockSize; p++ {
+			portFree <- portBase + k*blockSize + p
+		}
+		return
+	}
+	portErr = fmt.Errorf("no free block of ports (are %d checks running at once?)", portBlocks)
+}
 
 type served struct {
 	File string `json:"file"`
@@ -67,20 +97,23 @@ type server struct {
 
 func newServer(prefix string, content func(file string, ver int) string) (*server, error) {
 	s := &server{prefix: prefix, content: content, vers: map[string]int{}, mode: mRefused, release: make(chan struct{})}
-	for try := 0; try < 2000; try++ {
-		p := int(nextPort.Add(1))
-		if p > 32000 {
-			return nil, fmt.Errorf("no free port below the ephemeral range")
-		}
+	portOnce.Do(claimPorts)
+	if portErr != nil {
+		return nil, portErr
+	}
+	for try := 0; try < blockSize; try++ {
+		p := <-portFree
 		ln, err := net.Listen("tcp", "127.0.0.1:"+strconv.Itoa(p))
 		if err != nil {
+			// somebody outside the harness uses it: try it again later, after the others
+			portFree <- p
 			continue
 		}
 		s.port = p
 		s.start(ln)
 		return s, nil
 	}
-	return nil, fmt.Errorf("could not bind a port")
+	return nil, fmt.Errorf("could not bind any port of this process's block")
 }
 
 func (s *server) base() string { return fmt.Sprintf("http://127.0.0.1:%d%s", s.port, s.prefix) }
@@ -97,7 +130,7 @@ func (s *server) listening(on bool) error {
 	if on && s.srv == nil {
 		var ln net.Listener
 		var err error
-		for try := 0; try < 50; try++ {
+		for try := 0; try < 250; try++ {
 			ln, err = net.Listen("tcp", "127.0.0.1:"+strconv.Itoa(s.port))
 			if err == nil {
 				break
@@ -109,6 +142,10 @@ func (s *server) listening(on bool) error {
 		}
 		s.start(ln)
 	} else if !on && s.srv != nil {
+		// Close the listener ourselves as well: if the Serve goroutine has not
+		// been scheduled yet (loaded machine), Server.Close does not know the
+		// listener and the port would stay open until Serve gets to run.
+		s.ln.Close()
 		s.srv.Close()
 		s.srv, s.ln = nil, nil
 	}
@@ -165,6 +202,10 @@ func (s *server) close() {
 	s.release = make(chan struct{})
 	s.mu.Unlock()
 	s.listening(false)
+	if s.port != 0 {
+		portFree <- s.port
+		s.port = 0
+	}
 }
 
 func (s *server) block(r *http.Request) {
